@@ -120,6 +120,29 @@ def run(ctx):
             if len(set(c['shift'])) == 1:
                 Y2 = teneva.poly(c['n'], shift=float(c['shift'][0]), power=c['power'], scale=float(c['scale']))
                 ctx.check(np.array_equal(F.dense(Y2), ref), 'poly:scalar-shift', 'scalar shift differs from per-mode shift', case=row)
+            # the shift in every numeric presentation (float / int scalar, list, integer array) and powers whose values
+            # leave the 64-bit integer range or are reciprocal: same tensor, values from exact rational arithmetic
+            if all(float(x).is_integer() for x in c['shift']):
+                from fractions import Fraction
+                shi = [int(x) for x in c['shift']]
+                for power in (c['power'], 20, 27, -1, -2):
+                    if power < 0 and any(m + sh_ == 0 for sh_, k_ in zip(shi, c['n']) for m in range(k_)):
+                        continue
+                    ref2 = np.zeros(c['n'])
+                    for pos in np.ndindex(*c['n']):
+                        ref2[pos] = float(Fraction(c['scale']) * sum(Fraction(m + sh_) ** power for m, sh_ in zip(pos, shi)))
+                    forms = [('int list', list(shi)), ('int64 array', np.array(shi, dtype=np.int64)), ('int32 array', np.array(shi, dtype=np.int32)), ('float array', np.array(shi, dtype=float))]
+                    if len(set(shi)) == 1:
+                        forms += [('int scalar', shi[0]), ('float scalar', float(shi[0]))]
+                    for fname, sh_arg in forms:
+                        ctx.case(key=('poly-form', c['n'], shi, power, c['scale'], fname), nontrivial=True)
+                        try:
+                            Yf = teneva.poly(c['n'], shift=sh_arg, power=power, scale=float(c['scale']))
+                            okf = F.is_wellformed(Yf, c['n']) and np.abs(F.dense(Yf) - ref2).max() <= 1e-12 * (np.abs(ref2).max() + 1e-300)
+                            why = 'largest deviation %.3g of %.3g' % (np.abs(F.dense(Yf) - ref2).max(), np.abs(ref2).max()) if F.is_wellformed(Yf, c['n']) else 'malformed'
+                        except Exception as ex:
+                            okf, why = False, 'raised %s: %s' % (type(ex).__name__, ex)
+                        ctx.check(okf, 'poly:forms', 'poly(%s, shift=%s as %s, power=%d, scale=%s): %s' % (c['n'], shi, fname, power, c['scale'], why), case=row)
         elif kind == 'randshape':
             n, r = c['n'], c['r']
             shapes = [tuple(s) for s in e['shapes']]
@@ -159,6 +182,11 @@ def run(ctx):
                         msg = 'normal draws wrong'
                     if ok and name == 'rand_stab':
                         ok = np.abs(F.dense(Y) - 1.).max() <= 1e-3 * 50 * len(n) * r and all(l['fn'] == 'normal' and l['scale'] == 1e-3 for l in g.log)
+                        # "ones perturbed by the requested noise": every core is the identity pattern plus the drawn numbers, each
+                        # drawn number in exactly one position (in particular the diagonal carries noise too)
+                        resid = np.sort(np.concatenate([(G - np.eye(G.shape[0], G.shape[2])[:, None, :]).ravel() for G in Y]))
+                        drawn = np.sort(np.concatenate([np.ravel(l['out']) for l in g.log]))
+                        ok = ok and resid.shape == drawn.shape and np.abs(resid - drawn).max() <= 4e-16
                         # noise = 0 gives exactly the all-ones tensor
                         Y0 = teneva.rand_stab(n, rr, noise=0., seed=1)
                         ok = ok and np.array_equal(F.dense(Y0), np.ones(n))
